@@ -262,6 +262,14 @@ func (t *FnTrans) applyContract(ct *Contract, key string, callee *ssa.Function, 
 			}
 		}
 	}
+	if ct.Opts["nolocks"] != "" {
+		// a callback that must not run inside a critical section (it may call back into the object)
+		for k, v := range t.cur.Held {
+			if v != 0 {
+				t.oblige("callback.underlock", "false", "callback invoked while holding "+k)
+			}
+		}
+	}
 	// preconditions
 	nth := t.count("call:" + key)
 	short := key
@@ -448,6 +456,25 @@ func (t *FnTrans) modItem(x *Expr, env *Env, f func(comp, sort, ref string)) {
 		es := t.sortOf(u.Elem())
 		f("E."+mangle(es), "(Array Int (Array Int "+es+"))", app("s.base", v.S))
 		return
+	case x.Op == "call" && x.Name == "atomic":
+		// the value cell of the sync/atomic object x points to
+		v := env.eval(x.Args[0])
+		n, ok := derefNamed(env.resolveT(v.T))
+		if !ok || n.Obj().Pkg() == nil || n.Obj().Pkg().Path() != "sync/atomic" {
+			t.fail("modifies atomic(%s): not a sync/atomic object", x.Args[0])
+		}
+		var recv Val
+		if _, isPtr := env.resolveT(v.T).Underlying().(*types.Pointer); !isPtr && v.P != nil && v.P.Kind == "field" {
+			recv = Val{P: v.P} // atomic embedded by value in a struct
+		} else {
+			recv = Val{S: v.S} // standalone atomic referenced by pointer
+		}
+		p, ok2 := t.atomicCell(recv, "sync/atomic."+n.Obj().Name()+".Load")
+		if !ok2 {
+			t.fail("modifies atomic(%s): unsupported atomic type", x.Args[0])
+		}
+		t.modPtr(p, f)
+		return
 	case x.Op == "call" && x.Name == "monitor":
 		// everything the monitors of x's type guard (fields, ghost fields, sleeper / owed / wake counters, tokens) at object x
 		v := env.eval(x.Args[0])
@@ -467,6 +494,19 @@ func (t *FnTrans) modItem(x *Expr, env *Env, f func(comp, sort, ref string)) {
 					pkg := ts.Name[:strings.LastIndex(ts.Name, ".")]
 					if gs, ok := t.eng.specs.Ghosts[pkg+"."+g[len("global:"):]]; ok {
 						f("GG."+pkg+"."+g[len("global:"):], gs, "")
+					}
+					continue
+				}
+				if strings.HasPrefix(g, "map:") {
+					if ft := t.fieldTypeByName(ts.Name, g[len("map:"):]); ft != nil {
+						if mt, ok := t.resolve(ft).Underlying().(*types.Map); ok {
+							dc, vc, lc := t.mapComps(mt)
+							fc := t.comp("H."+tname+"."+g[len("map:"):], "(Array Int Int)")
+							mref := app("select", t.get(fc), v.S)
+							f(dc, t.compSort[dc], mref)
+							f(vc, t.compSort[vc], mref)
+							f(lc, t.compSort[lc], mref)
+						}
 					}
 					continue
 				}
@@ -681,10 +721,14 @@ func (t *FnTrans) frameCheck() {
 // ---------- defers ----------
 
 func (t *FnTrans) runDefers() {
+	var here *ssa.BasicBlock
+	if t.curInstr != nil {
+		here = t.curInstr.Block()
+	}
 	for i := len(t.defers) - 1; i >= 0; i-- {
 		d := t.defers[i]
 		// the defer was pushed iff its block was reached
-		if !t.blockDominatesCur(d.call.Block()) {
+		if here == nil || !d.call.Block().Dominates(here) {
 			t.withGuard(d.guard, func() { t.curInstr = d.call; t.call(d.call, &d.call.Call, nil) })
 		} else {
 			t.curInstr = d.call
@@ -806,21 +850,24 @@ func (t *FnTrans) appendBuiltin(c *ssa.CallCommon, res ssa.Value) {
 	t.assume(and(app(">=", ncap, newLen), implies(fits, eq(ncap, app("s.cap", s)))))
 	newArr := t.newConst("apparr", "(Array Int "+es+")")
 	oldRow := app("select", h, app("s.base", s))
+	// all facts are indexed by the position k in the new array, so that (select newArr k) is a usable trigger
+	slen0 := app("s.len", s)
 	// old elements preserved
-	t.assume(fmt.Sprintf("(forall ((ai Int)) (! %s :pattern ((select %s ai))))", implies(and(app("<=", "0", "ai"), app("<", "ai", app("s.len", s))),
-		eq(app("select", newArr, app("+", noff, "ai")), app("select", oldRow, app("+", app("s.off", s), "ai")))), newArr))
+	t.assume(fmt.Sprintf("(forall ((ak Int)) (! %s :pattern ((select %s ak))))", implies(and(app("<=", noff, "ak"), app("<", "ak", app("+", noff, slen0))),
+		eq(app("select", newArr, "ak"), app("select", oldRow, app("+", app("s.off", s), app("-", "ak", noff))))), newArr))
 	// in place: everything outside the appended window is unchanged
-	t.assume(implies(fits, fmt.Sprintf("(forall ((ai Int)) (! %s :pattern ((select %s ai))))", implies(or(app("<", "ai", app("+", app("s.off", s), app("s.len", s))), app(">=", "ai", app("+", app("s.off", s), newLen))),
-		eq(app("select", newArr, "ai"), app("select", oldRow, "ai"))), newArr)))
+	t.assume(implies(fits, fmt.Sprintf("(forall ((ak Int)) (! %s :pattern ((select %s ak))))", implies(or(app("<", "ak", app("+", app("s.off", s), slen0)), app(">=", "ak", app("+", app("s.off", s), newLen))),
+		eq(app("select", newArr, "ak"), app("select", oldRow, "ak"))), newArr)))
 	// appended elements
+	var src string
 	if isStr {
-		t.assume(fmt.Sprintf("(forall ((ai Int)) (! %s :pattern ((select %s (+ %s (+ %s ai))))))", implies(and(app("<=", "0", "ai"), app("<", "ai", n)),
-			eq(app("select", newArr, app("+", noff, app("+", app("s.len", s), "ai"))), app("sidx", add, "ai"))), newArr, noff, app("s.len", s)))
+		src = app("sidx", add, app("-", app("-", "ak", noff), slen0))
 	} else {
 		addRow := app("select", h, app("s.base", add))
-		t.assume(fmt.Sprintf("(forall ((ai Int)) %s)", implies(and(app("<=", "0", "ai"), app("<", "ai", n)),
-			eq(app("select", newArr, app("+", noff, app("+", app("s.len", s), "ai"))), app("select", addRow, app("+", app("s.off", add), "ai"))))))
+		src = app("select", addRow, app("+", app("s.off", add), app("-", app("-", "ak", noff), slen0)))
 	}
+	t.assume(fmt.Sprintf("(forall ((ak Int)) (! %s :pattern ((select %s ak))))", implies(and(app("<=", app("+", noff, slen0), "ak"), app("<", "ak", app("+", noff, newLen))),
+		eq(app("select", newArr, "ak"), src)), newArr))
 	t.set(ec, app("store", h, nb, newArr))
 	t.bind(res, app("mk-slice", nb, noff, newLen, ncap))
 }
